@@ -604,8 +604,36 @@ fn spawn_actor_k<const K: usize>(c: &str, o: &Op) -> Res {
     });
     ex.label_next_actor(&o.a);
     let cf = &o.cfg;
-    let actor = H::<K>::new();
     let plain = cf.cap == -1 && cf.strat == "restart" && cf.tmo < 0 && !cf.failto && !cf.stream;
+    if plain && o.entry == "default" {
+        // DefaultSpawnable: the library makes the value (Default::default) and spawns it on an unbounded mailbox
+        use hannibal::spawner::DefaultSpawnable;
+        let hv = if cf.owning {
+            HandleV::Owning(Box::new(<H<K> as DefaultSpawnable<_>>::spawn_owning().expect("spawn_owning (default)")))
+        } else {
+            HandleV::Addr(Box::new(<H<K> as DefaultSpawnable<_>>::spawn_default().expect("spawn_default")))
+        };
+        let aid = hv.aid();
+        if actor_of(aid) != o.a {
+            rebind_name(aid, &o.a);
+        }
+        put_h(&o.nh, hv);
+        return r("ok", o.a.clone());
+    }
+    let actor = H::<K>::new();
+    if plain && o.entry == "with" && !cf.owning {
+        // SpawnableWith: the caller names the spawner and gets the task handle next to the address
+        use hannibal::spawner::SpawnableWith;
+        let (addr, handle) = actor.spawn_with::<hannibal::spawner::TokioSpawner>();
+        handle.detach();
+        let hv = HandleV::Addr(Box::new(addr));
+        let aid = hv.aid();
+        if actor_of(aid) != o.a {
+            rebind_name(aid, &o.a);
+        }
+        put_h(&o.nh, hv);
+        return r("ok", o.a.clone());
+    }
     let hv = if cf.stream {
         let st = std::sync::Arc::new(std::sync::Mutex::new(crate::actors::StreamState { ready: cf.items0, next: 1, ended: cf.ended0, waker: None }));
         WORLD.with(|w| w.borrow_mut().streams.insert(o.a.clone(), st.clone()));
